@@ -47,6 +47,31 @@ def hyper(args):
     return execs, {'sym': sym, 'seed': seed, 'ev': hev}
 
 
+def canonical_zero_sector():
+    """ canonical reproducer of the known finding 'stored structurally-zero blocks': the fusing kernels store the blocks (0,1,5,0) and (1,0,0,5) of
+    c = a . b (every element zero), no_fusion does not; one more contraction turns that into different LEGS of the result """
+    import yastn
+    hev = [{'x': []}, {'x': []}]
+    for pol in ('fuse_to_matrix', 'fuse_contracted', 'no_fusion'):
+        cfg = T.make_config('U1', policy=pol)
+        a = yastn.Tensor(config=cfg, s=(1, 1, 1, 1), n=2)
+        a.set_block(ts=(0, 1, 0, 1), Ds=(1, 1, 1, 1), val=[1])
+        a.set_block(ts=(1, 0, 1, 0), Ds=(1, 1, 1, 1), val=[2])
+        b = yastn.Tensor(config=cfg, s=(-1, -1, 1, 1), n=4)
+        b.set_block(ts=(0, 1, 0, 5), Ds=(1, 1, 1, 1), val=[3])
+        b.set_block(ts=(1, 0, 5, 0), Ds=(1, 1, 1, 1), val=[4])
+        e = yastn.Tensor(config=cfg, s=(-1, 1), n=0)
+        e.set_block(ts=(5, 5), Ds=(1, 1), val=[7])
+        c = yastn.tensordot(a, b, axes=((2, 3), (0, 1)))
+        d = yastn.tensordot(c, e, axes=(2, 0))
+        for k, x in enumerate((c, d)):
+            o = T.alpha(x, 'U1')
+            sup = [sorted({repr(en[0][j][0]) for en in o['ent']}) for j in range(len(o['s']))]
+            hev[k]['x'].append({'out': 'ok', 's': o['s'], 'n': o['n'], 'grp': o['grp'], 'legs': o['legs'],
+                                'sup': [[lg[0] for lg in o['legs'][j] if repr(lg[0]) in sup[j]] for j in range(len(o['s']))]})
+    return {'sym': 'U1', 'seed': 'canonical-zero-sector', 'ev': hev}
+
+
 def main(tier, seed, replay=None):
     rep = Report('C14', tier, seed, 'model_checking')
     rep.cov['rule'] = ('one program (tensordot, fuse/unfuse, transpose, add, trace, ...) x %d configurations x 3 placements of consume_transpose()/copy(); every execution validated '
@@ -64,14 +89,31 @@ def main(tier, seed, replay=None):
         out = list(ex.map(hyper, jobs, chunksize=2))
     traces = [t for execs, _ in out for t in execs]
     hypers = [h for _, h in out]
+    if not replay:
+        hypers.append(canonical_zero_sector())
     nev, kinds, rej = report_traces(rep, traces)
     acc, diag, res = validate_traces('TraceHyper', 'TraceHyper.cfg', hypers, shards=16, timeout=3000)
     for h, rj in zip(hypers, validate_traces.last_rejects):
         for l, why in rj:
             cat = 'zero-sector-legs' if 'zero-sector-legs' in why else 'observable-difference'
-            rep.violation('hyper:%s:%s:seed=%s:event=%d' % (cat, h['sym'], h['seed'], l),
+            rep.violation('hyper:%s:%s:seed=%s:event=%d' % (cat, h['sym'], h['seed'], l) if cat != 'zero-sector-legs' else 'hyper:zero-sector-legs:%s' % h['sym'],
                           '%s program seed=%s event %d: executions under different policy / fusion mode / lazy state differ (%s): %s' % (h['sym'], h['seed'], l, cat, why[:600]),
                           {'op': 'hyper', 'sym': h['sym'], 'seed': h['seed'], 'event': l, 'category': cat})
+    if not replay:
+        from vlib import negative_controls
+        def c_sig(e):
+            xs = [x for x in e['x'] if x.get('out') == 'ok' and x.get('s')]
+            if len(xs) >= 2:
+                xs[-1]['s'] = [-v for v in xs[-1]['s']]          # one execution returns the opposite signatures
+                return True
+        def c_out(e):
+            xs = [x for x in e['x'] if x.get('out') == 'ok']
+            if len(xs) >= 2 and len(xs) == len(e['x']):
+                xs[1]['out'] = 'YastnError'                        # one configuration rejects what the others compute
+                for k in ('s', 'n', 'grp', 'legs', 'sup'):
+                    xs[1].pop(k, None)
+                return True
+        rep.cov['parts']['negative_controls_rejected'] = negative_controls('TraceHyper', 'TraceHyper.cfg', hypers, [('signature differs in one execution', c_sig), ('one configuration rejects', c_out)], timeout=900)
     rep.cov['traces_validated_against_impl'] = len(traces)
     rep.cov['evaluations'] = nev
     rep.cov['distinct_nontrivial'] = sum(1 for h in hypers for e in h['ev'] if any(x.get('sup') and any(x['sup']) for x in e['x']))
